@@ -304,6 +304,13 @@ func (rw *rewriter) run() {
 			} else if isPkgSel(n.Fun, "runtime", "Gosched") {
 				n.Fun = sel("vrt", "Yield")
 				rw.needVrt = true
+			} else if isPkgSel(n.Fun, "net", "DialTimeout") && len(n.Args) == 3 {
+				// the time-out of a dial is REAL time (package net), everything else runs on virtual time: a connect to a
+				// unix or loopback socket succeeds or fails at once, so a generous real limit changes nothing - except that an
+				// overloaded machine cannot make a dial fail any more
+				n.Fun = sel("vrt", "DialTimeout")
+				rw.needVrt = true
+				rw.stats["dial"]++
 			} else if isPkgSel(n.Fun, "syscall", "Munmap") {
 				n.Fun = sel("vrt", "Munmap")
 				rw.needVrt = true
